@@ -44,6 +44,18 @@ type Result struct {
 	// HoldReached: the HoldOpen level was reached before the liveness bound.
 	HoldReached bool `json:"holdReached,omitempty"`
 	WallUS   int64                `json:"wallUS"`
+	// DepSnaps: the state of every dependency at the instant a step's executor
+	// was created (the step had been chosen for launch by then).
+	DepSnaps []DepSnap `json:"depSnaps,omitempty"`
+}
+
+// DepSnap is the state of dependency Dep observed when an attempt of Step was launched.
+type DepSnap struct {
+	Step       string `json:"step"`
+	Seq        int    `json:"seq"`
+	Dep        string `json:"dep"`
+	Status     string `json:"status"`
+	RetryCount int    `json:"retryCount"`
 }
 
 // Quiet is a logger that writes nowhere.
@@ -97,11 +109,11 @@ func BuildSteps(c *Case) ([]dag.Step, map[string]Script) {
 			ExecutorConfig: dag.ExecutorConfig{Type: ExecType, Config: map[string]any{}},
 			SignalOnStop:   s.SignalOn,
 		}
-		switch s.Precond {
-		case 1:
-			st.Preconditions = []dag.Condition{{Condition: "1", Expected: "1"}}
-		case 2:
-			st.Preconditions = []dag.Condition{{Condition: "0", Expected: "1"}}
+		for _, ce := range s.Conds() {
+			st.Preconditions = append(st.Preconditions, dag.Condition{Condition: ce[0], Expected: ce[1]})
+		}
+		if s.Output {
+			st.Output = "VERIF_OUT_" + s.Name
 		}
 		if s.RetryLimit >= 0 {
 			st.RetryPolicy = &dag.RetryPolicy{Limit: s.RetryLimit, Interval: time.Duration(s.RetryIvUS) * time.Microsecond}
@@ -279,6 +291,29 @@ func (e *Env) Drive(bound time.Duration) *Result {
 			}
 		})
 	}
+	var snapMu sync.Mutex
+	var snaps []DepSnap
+	nodeOf := map[string]*scheduler.Node{}
+	for _, n := range g.Nodes() {
+		nodeOf[n.Data().Step.Name] = n
+	}
+	w.AddHook(func(w *World, ev Event, a *Attempt) {
+		if ev.Kind != EvCreate || IsHandler(ev.Step) {
+			return
+		}
+		sp := c.Step(ev.Step)
+		if sp == nil {
+			return
+		}
+		for _, dn := range sp.Depends {
+			if n := nodeOf[dn]; n != nil {
+				st := n.State()
+				snapMu.Lock()
+				snaps = append(snaps, DepSnap{Step: ev.Step, Seq: ev.Seq, Dep: dn, Status: st.Status.String(), RetryCount: st.RetryCount})
+				snapMu.Unlock()
+			}
+		}
+	})
 	if st := c.Stop; st != nil {
 		delay := time.Duration(st.DelayUS) * time.Microsecond
 		switch st.Trigger {
@@ -483,6 +518,9 @@ loop:
 		res.SchedErr = sr.err.Error()
 	}
 	res.Trace = w.Trace()
+	snapMu.Lock()
+	res.DepSnaps = snaps
+	snapMu.Unlock()
 	for _, n := range g.Nodes() {
 		d := n.Data()
 		res.Final[d.Step.Name] = finalOf(d)
